@@ -330,41 +330,109 @@ Definition host_stop (sp ins : bool) (c : N) : bool :=
 Lemma host_stop_terminator sp ins c : host_stop sp ins c = true -> host_terminator sp c = true.
 Proof. unfold host_stop, host_terminator. destruct sp, ins; lia. Qed.
 
-(* with no tab/LF/CR in the authority the host loop consumes a prefix of the authority and
-   counts exactly the characters it consumes *)
-Lemma host_scan_clean sp l : forall ins ni co,
-  existsb ignored_host (authority_chars sp l) = false ->
-  exists k, host_scan sp l ins false ni co = (false, ni + k, co + k, drop k l)%nat /\
+Lemma encode_cp_high c b : 128 <= c -> In b (encode_cp c) -> 128 <= b.
+Proof.
+  intros Hc. unfold encode_cp. destruct (N.ltb c 128) eqn:E1; [lia|].
+  destruct (N.ltb c 2048); [|destruct (N.ltb c 65536)]; cbn [In]; intros H;
+    repeat (destruct H as [<-|H]; [lia|]); destruct H.
+Qed.
+
+Lemma existsb_encode_all (f : N -> bool) l :
+  (forall b, f b = true -> b < 128) -> existsb f l = false -> existsb f (encode_all l) = false.
+Proof.
+  intros Hf. induction l as [|c l IH]; [reflexivity|]. cbn [existsb encode_all flat_map].
+  intros H. apply orb_false_iff in H as [Hc Hl]. rewrite existsb_app. fold (encode_all l). rewrite (IH Hl), orb_false_r.
+  destruct (N.ltb c 128) eqn:E.
+  - unfold encode_cp. rewrite E. cbn [existsb]. rewrite Hc. reflexivity.
+  - destruct (existsb f (encode_cp c)) eqn:X; [|reflexivity].
+    apply existsb_exists in X as (b & Hb & Hfb). apply Hf in Hfb.
+    apply encode_cp_high in Hb; lia.
+Qed.
+
+Lemma host_forbidden_low sp b : host_forbidden sp b = true -> b < 128.
+Proof. unfold host_forbidden, SLASH, QMARK, HASH, AT, BSLASH. destruct sp; lia. Qed.
+
+Lemma host_forbidden_mono sp b : host_forbidden sp b = true -> host_forbidden true b = true.
+Proof. unfold host_forbidden. destruct sp; lia. Qed.
+
+Lemma existsb_mono {A} (f g : A -> bool) l : (forall x, f x = true -> g x = true) -> existsb g l = false -> existsb f l = false.
+Proof.
+  intros H Hg. destruct (existsb f l) eqn:E; [|reflexivity].
+  apply existsb_exists in E as (x & Hx & Hfx). apply H in Hfx.
+  assert (existsb g l = true) by (apply existsb_exists; eauto). congruence.
+Qed.
+
+(* the host loop consumes a prefix of the authority that ends at a terminator (or at the end),
+   counts every character it consumes and remembers whether one of them was tab/LF/CR *)
+Lemma host_scan_spec sp l : forall ins hi ni ig co,
+  exists k hi' ni' ig',
+    host_scan sp l ins hi ni ig co = (hi', ni', ig', co + k, drop k l)%nat /\
+    (ni' + ig' = ni + ig + k)%nat /\
+    hi' = hi || existsb ignored_host (take k l) /\
     authority_chars sp l = take k l ++ authority_chars sp (drop k l) /\
     (drop k l = [] \/ exists c r, drop k l = c :: r /\ host_terminator sp c = true).
 Proof.
-  induction l as [|c r IH]; intros ins ni co Hi.
-  - exists O. cbn. rewrite !Nat.add_0_r. auto.
+  induction l as [|c r IH]; intros ins hi ni ig co.
+  - exists O, hi, ni, ig. cbn. rewrite !Nat.add_0_r, orb_false_r. repeat split; auto.
   - cbn [host_scan].
+    assert (Stop : host_stop sp ins c = true ->
+              exists k hi' ni' ig',
+                (hi, ni, ig, co, c :: r) = (hi', ni', ig', co + k, drop k (c :: r))%nat /\
+                (ni' + ig' = ni + ig + k)%nat /\ hi' = hi || existsb ignored_host (take k (c :: r)) /\
+                authority_chars sp (c :: r) = take k (c :: r) ++ authority_chars sp (drop k (c :: r)) /\
+                (drop k (c :: r) = [] \/ exists c' r', drop k (c :: r) = c' :: r' /\ host_terminator sp c' = true)).
+    { intros Hs. exists O, hi, ni, ig. cbn [take firstn drop skipn existsb app]. rewrite !Nat.add_0_r, orb_false_r.
+      repeat split; auto. right. exists c, r. split; [reflexivity|]. eapply host_stop_terminator; eauto. }
     destruct (N.eqb c COLON && negb ins) eqn:E1.
-    { exists O. rewrite !Nat.add_0_r. split; [reflexivity|]. split; [reflexivity|]. right.
-      exists c, r. split; [reflexivity|]. apply (host_stop_terminator sp ins). unfold host_stop. rewrite E1. reflexivity. }
+    { apply Stop. unfold host_stop. rewrite E1. reflexivity. }
     destruct (N.eqb c BSLASH && sp) eqn:E2.
-    { exists O. rewrite !Nat.add_0_r. split; [reflexivity|]. split; [reflexivity|]. right.
-      exists c, r. split; [reflexivity|]. apply (host_stop_terminator sp ins). unfold host_stop. rewrite E1, E2. reflexivity. }
+    { apply Stop. unfold host_stop. rewrite E1, E2. reflexivity. }
     destruct (N.eqb c SLASH || N.eqb c QMARK || N.eqb c HASH) eqn:E3.
-    { exists O. rewrite !Nat.add_0_r. split; [reflexivity|]. split; [reflexivity|]. right.
-      exists c, r. split; [reflexivity|]. apply (host_stop_terminator sp ins). unfold host_stop. rewrite E1, E2, E3. reflexivity. }
+    { apply Stop. unfold host_stop. rewrite E1, E2, E3. reflexivity. }
+    clear Stop.
     assert (Hb : auth_break sp c = false).
     { unfold auth_break. rewrite E3. rewrite andb_comm in E2. rewrite E2. reflexivity. }
-    rewrite authority_chars_cons, Hb in Hi. cbn [existsb] in Hi. apply orb_false_iff in Hi as [Hc Hr].
-    rewrite Hc.
-    assert (G : forall ins', exists k,
-               host_scan sp r ins' false (S ni) (S co) = (false, ni + k, co + k, drop k (c :: r))%nat /\
-               authority_chars sp (c :: r) = take k (c :: r) ++ authority_chars sp (drop k (c :: r)) /\
-               (drop k (c :: r) = [] \/ exists c' r', drop k (c :: r) = c' :: r' /\ host_terminator sp c' = true)).
-    { intros ins'. destruct (IH ins' (S ni) (S co) Hr) as (k & Hk & Ha & Ht). exists (S k).
-      split; [rewrite Hk; f_equal; f_equal; [f_equal; lia|lia]|].
+    assert (G : forall ins' hi0 ni0 ig0, (ni0 + ig0 = S (ni + ig))%nat -> hi0 = hi || ignored_host c ->
+              exists k hi' ni' ig',
+                host_scan sp r ins' hi0 ni0 ig0 (S co) = (hi', ni', ig', co + k, drop k (c :: r))%nat /\
+                (ni' + ig' = ni + ig + k)%nat /\ hi' = hi || existsb ignored_host (take k (c :: r)) /\
+                authority_chars sp (c :: r) = take k (c :: r) ++ authority_chars sp (drop k (c :: r)) /\
+                (drop k (c :: r) = [] \/ exists c' r', drop k (c :: r) = c' :: r' /\ host_terminator sp c' = true)).
+    { intros ins' hi0 ni0 ig0 Hsum Hhi.
+      destruct (IH ins' hi0 ni0 ig0 (S co)) as (k & hi' & ni' & ig' & Hk & Hs & Hh & Ha & Ht).
+      exists (S k), hi', ni', ig'.
+      split; [rewrite Hk; f_equal; f_equal; lia|]. split; [lia|].
+      split; [rewrite Hh, Hhi; cbn [take firstn existsb]; rewrite orb_assoc; reflexivity|].
       split; [|exact Ht]. rewrite authority_chars_cons, Hb. cbn [take firstn drop skipn app]. f_equal. exact Ha. }
-    destruct (N.eqb c LBRACK); [apply G|]. destruct (N.eqb c RBRACK); apply G.
+    destruct (ignored_host c) eqn:Ei.
+    { apply G; [lia|symmetry; apply orb_true_r]. }
+    rewrite orb_false_r in G.
+    destruct (N.eqb c LBRACK); [apply G; [lia|reflexivity]|].
+    destruct (N.eqb c RBRACK); apply G; try lia; reflexivity.
 Qed.
 
-(* ------------------------------------------------------------------ host *)
+Lemma host_filter_id l : existsb ignored_host l = false -> host_filter l = l.
+Proof.
+  induction l as [|c l IH]; [reflexivity|]. cbn [existsb]. intros H. apply orb_false_iff in H as [Hc Hl].
+  unfold host_filter. cbn [filter]. change (memN c url_ignored_host_filter) with (ignored_host c).
+  rewrite Hc. cbn [negb]. f_equal. apply IH. exact Hl.
+Qed.
+
+Lemma host_filter_forbidden sp l : existsb (host_forbidden sp) l = false -> existsb (host_forbidden sp) (host_filter l) = false.
+Proof.
+  intros H. destruct (existsb (host_forbidden sp) (host_filter l)) eqn:E; [|reflexivity].
+  apply existsb_exists in E as (x & Hx & Hf). unfold host_filter in Hx. apply filter_In in Hx as [Hx _].
+  assert (existsb (host_forbidden sp) l = true) by (apply existsb_exists; eauto). congruence.
+Qed.
+
+Lemma forbidden_is_rejected sp b : host_forbidden sp b = true -> idna_rejected b = true.
+Proof.
+  intros H.
+  assert (D : b = 47 \/ b = 63 \/ b = 35 \/ b = 64 \/ b = 92)
+    by (unfold host_forbidden, SLASH, QMARK, HASH, AT, BSLASH in H; destruct sp; lia).
+  destruct D as [-> | [-> | [-> | [-> | ->]]]]; reflexivity.
+Qed.
+
 Section Scanner.
 Variable idna : str -> option str.
 Hypothesis Hidna : idna_contract idna.
@@ -373,11 +441,12 @@ Lemma parse_host_spec ser input sp ser' he rem :
   parse_host idna ser input sp = POk (ser', he, rem) ->
   exists host, ser' = ser ++ host /\ he = length ser' /\ all_ascii host = true.
 Proof.
-  unfold parse_host. destruct (host_scan sp input false false 0 0) as [[[hi ni] co] remaining].
-  set (hs := encode_all (if hi then take ni input else take co input)).
+  unfold parse_host. destruct (host_scan sp input false false 0 0 0) as [[[[hi ni] ig] co] remaining].
+  set (hs := encode_all (if hi then host_filter (take (ni + ig) input) else take co input)).
   destruct (all_ascii hs) eqn:E.
   - intros H; inversion H; subst. exists hs. repeat split; auto.
   - destruct (idna hs) as [e|] eqn:Ei; [|discriminate].
+    destruct (existsb idna_rejected e); [discriminate|].
     intros H; inversion H; subst. exists e. repeat split; auto. eapply Hidna; eauto.
 Qed.
 
@@ -506,17 +575,21 @@ Qed.
 
 Lemma parse_host_detail ser l sp ser' he rem :
   parse_host idna ser l sp = POk (ser', he, rem) ->
-  existsb ignored_host (authority_chars sp l) = false ->
   existsb (N.eqb AT) (authority_chars sp l) = false ->
-  exists host_cps h,
-    l = host_cps ++ rem /\ ser' = ser ++ h /\ he = length ser' /\
-    host_out idna (encode_all host_cps) h /\
-    existsb (host_forbidden sp) host_cps = false /\
+  exists consumed h,
+    l = consumed ++ rem /\ ser' = ser ++ h /\ he = length ser' /\
+    host_out idna (encode_all (host_filter consumed)) h /\
+    existsb (host_forbidden sp) consumed = false /\
+    existsb (host_forbidden sp) h = false /\
     (rem = [] \/ exists c r, rem = c :: r /\ host_terminator sp c = true).
 Proof.
-  intros H Hi Hat. unfold parse_host in H.
-  destruct (host_scan_clean sp l false 0 0 Hi) as (k & Hk & Ha & Ht). rewrite Hk in H. cbn [Nat.add] in H.
-  exists (take k l). 
+  intros H Hat. unfold parse_host in H.
+  destruct (host_scan_spec sp l false false 0 0 0) as (k & hi & ni & ig & Hk & Hsum & Hhi & Ha & Ht).
+  rewrite Hk in H. cbn [Nat.add orb] in H, Hsum, Hhi.
+  assert (Hstr : (if hi then host_filter (take (ni + ig) l) else take k l) = host_filter (take k l)).
+  { rewrite Hsum. destruct hi; [reflexivity|]. symmetry. apply host_filter_id. symmetry. exact Hhi. }
+  rewrite Hstr in H. clear Hstr Hsum Hhi.
+  exists (take k l).
   assert (Hf : existsb (host_forbidden sp) (take k l) = false).
   { destruct (existsb (host_forbidden sp) (take k l)) eqn:E; [|reflexivity].
     apply existsb_exists in E as (c & Hc & Hfc).
@@ -524,52 +597,55 @@ Proof.
     pose proof (authority_chars_no_break sp l c Hin) as Hb.
     pose proof (existsb_false_In _ _ c Hat Hin) as Hn. cbn beta in Hn.
     unfold host_forbidden in Hfc. unfold auth_break in Hb. rewrite (N.eqb_sym c AT) in Hfc. lia. }
-  destruct (all_ascii (encode_all (take k l))) eqn:E.
-  - inversion H; subst. exists (encode_all (take k l)).
-    repeat split; auto; [symmetry; apply take_drop|left; auto].
-  - destruct (idna (encode_all (take k l))) as [e|] eqn:Ei; [|discriminate].
-    inversion H; subst. exists e. repeat split; auto; [symmetry; apply take_drop|right; auto].
+  destruct (all_ascii (encode_all (host_filter (take k l)))) eqn:E.
+  - inversion H; subst. exists (encode_all (host_filter (take k l))).
+    repeat split; auto; [symmetry; apply take_drop|left; auto|].
+    apply existsb_encode_all; [apply host_forbidden_low|apply host_filter_forbidden; exact Hf].
+  - destruct (idna (encode_all (host_filter (take k l)))) as [e|] eqn:Ei; [|discriminate].
+    destruct (existsb idna_rejected e) eqn:Er; [discriminate|].
+    inversion H; subst. exists e. repeat split; auto; [symmetry; apply take_drop|right; auto|].
+    eapply existsb_mono; [apply forbidden_is_rejected|exact Er].
 Qed.
 
-(* shape of a scan through the authority branch, for an input without tab/LF/CR in the authority *)
+(* shape of a scan through the authority branch *)
 Lemma after_double_slash_detail ser0 a sp se0 ser se hs he :
   after_double_slash idna ser0 a sp se0 = POk (ser, se, hs, he) ->
-  existsb ignored_host (authority_chars sp a) = false ->
-  exists ui host_cps rest_cps h,
-    suffix_of (host_cps ++ rest_cps) a /\
+  exists ui consumed rest_cps h,
+    suffix_of (consumed ++ rest_cps) a /\
     ser = (ser0 ++ [SLASH; SLASH] ++ ui) ++ h ++ encode_all rest_cps /\
     hs = length (ser0 ++ [SLASH; SLASH] ++ ui) /\ he = (hs + length h)%nat /\
-    host_out idna (encode_all host_cps) h /\
-    existsb (host_forbidden sp) host_cps = false /\
+    host_out idna (encode_all (host_filter consumed)) h /\
+    existsb (host_forbidden sp) consumed = false /\
+    existsb (host_forbidden sp) h = false /\
     (rest_cps = [] \/ exists c r, rest_cps = c :: r /\ host_terminator sp c = true).
 Proof.
-  unfold after_double_slash. intros H Hi.
+  unfold after_double_slash. intros H.
   destruct (parse_userinfo (ser0 ++ [SLASH; SLASH]) a sp) as [[s1 rem1]|] eqn:E1; [|discriminate].
   apply parse_userinfo_detail in E1 as (ui & pre & -> & Hui & Ha & Hauth & Hat).
   destruct (parse_host idna _ rem1 sp) as [[[s2 he2] rem2]|] eqn:E2; [|discriminate].
-  assert (Hi1 : existsb ignored_host (authority_chars sp rem1) = false).
-  { rewrite Hauth, existsb_app in Hi. apply orb_false_iff in Hi. apply Hi. }
-  apply (parse_host_detail _ _ _ _ _ _) in E2 as (hc & h & Hl & -> & -> & Ho & Hf & Ht); auto.
+  apply (parse_host_detail _ _ _ _ _ _) in E2 as (hc & h & Hl & -> & -> & Ho & Hf & Hfh & Ht); auto.
   inversion H; subst; clear H.
   exists ui, hc, rem2, h. rewrite <- !app_assoc. repeat split; auto.
   - exists pre. reflexivity.
   - rewrite !app_length. cbn [length]. lia.
 Qed.
 
+(* For every URL with a host: the host text of the input (tab/LF/CR dropped) becomes the
+   hostname, the rest of the input follows it unchanged. *)
 Theorem scan_preserves_tail input ser se hs he :
   scan_chars idna input = POk (ser, se, hs, he) -> (hs < he)%nat ->
-  F21_ignored_chars_in_host input = false ->
-  exists sp host_cps rest_cps h,
-    suffix_of (host_cps ++ rest_cps) (trim_input input) /\
+  exists sp consumed rest_cps h,
+    suffix_of (consumed ++ rest_cps) (trim_input input) /\
     slice ser hs he = Ok h /\ drop he ser = encode_all rest_cps /\
-    host_out idna (encode_all host_cps) h /\
-    existsb (host_forbidden sp) host_cps = false /\
+    host_out idna (encode_all (host_filter consumed)) h /\
+    existsb (host_forbidden sp) consumed = false /\
+    existsb (host_forbidden sp) h = false /\
     (rest_cps = [] \/ exists c r, rest_cps = c :: r /\ host_terminator sp c = true).
 Proof.
-  intros H Hlt HF.
+  intros H Hlt.
   destruct (scan_chars_scanned _ _ _ _ _ H) as (scheme0 & mid0 & host0 & rest0 & Hsc).
   pose proof (scanned_host _ _ _ _ _ _ _ _ Hsc) as Hslice.
-  unfold scan_chars in H. unfold F21_ignored_chars_in_host, authority_input in HF.
+  unfold scan_chars in H.
   destruct (parse_scheme (trim_input input)) as [[scheme rem]|] eqn:E; [|discriminate].
   assert (Hsuf : suffix_of rem (trim_input input)).
   { unfold parse_scheme in E. destruct (trim_input input) as [|c l]; [discriminate|].
@@ -577,15 +653,15 @@ Proof.
   unfold parse_with_scheme in H.
   assert (G : forall sp a, suffix_of a rem ->
               after_double_slash idna (scheme ++ [COLON]) a sp (length scheme) = POk (ser, se, hs, he) ->
-              existsb ignored_host (authority_chars sp a) = false ->
-              exists sp host_cps rest_cps h,
-                suffix_of (host_cps ++ rest_cps) (trim_input input) /\
+              exists sp consumed rest_cps h,
+                suffix_of (consumed ++ rest_cps) (trim_input input) /\
                 slice ser hs he = Ok h /\ drop he ser = encode_all rest_cps /\
-                host_out idna (encode_all host_cps) h /\
-                existsb (host_forbidden sp) host_cps = false /\
+                host_out idna (encode_all (host_filter consumed)) h /\
+                existsb (host_forbidden sp) consumed = false /\
+                existsb (host_forbidden sp) h = false /\
                 (rest_cps = [] \/ exists c r, rest_cps = c :: r /\ host_terminator sp c = true)).
-  { intros sp a Hsa Had Hia.
-    apply after_double_slash_detail in Had as (ui & hc & rc & h & Hs1 & Hser & Hhs & Hhe & Ho & Hf & Ht); auto.
+  { intros sp a Hsa Had.
+    apply after_double_slash_detail in Had as (ui & hc & rc & h & Hs1 & Hser & Hhs & Hhe & Ho & Hf & Hfh & Ht).
     exists sp, hc, rc, h. split; [eapply suffix_trans; [exact Hs1|eapply suffix_trans; eauto]|].
     assert (Hh0 : host0 = take (he - hs) (drop hs ser)).
     { destruct Hsc. rewrite sc_ser0, sc_he0, sc_hs0. rewrite scanned_assoc.
@@ -887,63 +963,28 @@ Proof.
 Qed.
 
 (* ------------------------------------------------------------------ faithful normalisation *)
-Lemma encode_cp_high c b : 128 <= c -> In b (encode_cp c) -> 128 <= b.
-Proof.
-  intros Hc. unfold encode_cp. destruct (N.ltb c 128) eqn:E1; [lia|].
-  destruct (N.ltb c 2048); [|destruct (N.ltb c 65536)]; cbn [In]; intros H;
-    repeat (destruct H as [<-|H]; [lia|]); destruct H.
-Qed.
-
-Lemma existsb_encode_all (f : N -> bool) l :
-  (forall b, f b = true -> b < 128) -> existsb f l = false -> existsb f (encode_all l) = false.
-Proof.
-  intros Hf. induction l as [|c l IH]; [reflexivity|]. cbn [existsb encode_all flat_map].
-  intros H. apply orb_false_iff in H as [Hc Hl]. rewrite existsb_app. fold (encode_all l). rewrite (IH Hl), orb_false_r.
-  destruct (N.ltb c 128) eqn:E.
-  - unfold encode_cp. rewrite E. cbn [existsb]. rewrite Hc. reflexivity.
-  - destruct (existsb f (encode_cp c)) eqn:X; [|reflexivity].
-    apply existsb_exists in X as (b & Hb & Hfb). apply Hf in Hfb.
-    apply encode_cp_high in Hb; lia.
-Qed.
-
-Lemma host_forbidden_low sp b : host_forbidden sp b = true -> b < 128.
-Proof. unfold host_forbidden, SLASH, QMARK, HASH, AT, BSLASH. destruct sp; lia. Qed.
-
-Lemma host_forbidden_mono sp b : host_forbidden sp b = true -> host_forbidden true b = true.
-Proof. unfold host_forbidden. destruct sp; lia. Qed.
-
-Lemma existsb_mono {A} (f g : A -> bool) l : (forall x, f x = true -> g x = true) -> existsb g l = false -> existsb f l = false.
-Proof.
-  intros H Hg. destruct (existsb f l) eqn:E; [|reflexivity].
-  apply existsb_exists in E as (x & Hx & Hfx). apply H in Hfx.
-  assert (existsb g l = true) by (apply existsb_exists; eauto). congruence.
-Qed.
-
-(* Outside F21 the normalised URL keeps the host text and everything after it: the hostname is
-   the host text of the input (or its idna image when it is not ASCII), what follows the host in
-   the normalised URL is what follows it in the input, and that starts with a delimiter. *)
+(* The normalised URL keeps the host text and everything after it: the hostname is the host text
+   of the input with tab/LF/CR dropped (or its idna image when that is not ASCII), what follows
+   the host in the normalised URL is what follows it in the input, that starts with a delimiter,
+   and the hostname contains no / ? # @ (\ for special schemes). *)
 Theorem normalisation_faithful u s t r input :
   Request_new idna psl hash tokenize u s t = Ok (Some r) ->
   decode_utf8 u = Some input ->
-  F21_ignored_chars_in_host input = false ->
-  exists sp host_cps rest_cps se hs he,
+  exists sp consumed rest_cps se hs he,
     scan idna u = Ok (POk (url r, se, hs, he)) /\
-    suffix_of (host_cps ++ rest_cps) (trim_input input) /\
-    host_out idna (encode_all host_cps) (hostname r) /\
+    suffix_of (consumed ++ rest_cps) (trim_input input) /\
+    host_out idna (encode_all (host_filter consumed)) (hostname r) /\
     drop he (url r) = encode_all rest_cps /\
-    existsb (host_forbidden sp) host_cps = false /\
+    existsb (host_forbidden sp) consumed = false /\
     (rest_cps = [] \/ exists c r', rest_cps = c :: r' /\ host_terminator sp c = true) /\
-    (idna_no_delimiter idna -> existsb (host_forbidden sp) (hostname r) = false).
+    existsb (host_forbidden sp) (hostname r) = false.
 Proof.
-  intros H Hd HF.
+  intros H Hd.
   destruct (host_is_slice _ _ _ _ H) as (se & hs & he & Hs & Hlt & Hsl & _).
   pose proof Hs as Hs'. unfold scan in Hs'. rewrite Hd in Hs'. inversion Hs' as [Hsc].
-  destruct (scan_preserves_tail idna Hidna _ _ _ _ _ Hsc (proj1 Hlt) HF) as (sp & hc & rc & h & A & B & C & D & E & F).
+  destruct (scan_preserves_tail idna Hidna _ _ _ _ _ Hsc (proj1 Hlt)) as (sp & hc & rc & h & A & B & C & D & E & F & G).
   rewrite Hsl in B. inversion B; subst h.
   exists sp, hc, rc, se, hs, he. repeat split; auto.
-  intros Hn. destruct D as [(Da & ->)|(Da & Di)].
-  - apply existsb_encode_all; [apply host_forbidden_low|exact E].
-  - apply Hn in Di. eapply existsb_mono; [apply host_forbidden_mono|exact Di].
 Qed.
 
 End WithOracles.
@@ -988,55 +1029,34 @@ Proof.
   destruct (_ && _ && _); [|discriminate]. intros H; inversion H. split; [reflexivity|]. apply Nat.leb_le. exact E.
 Qed.
 
-Theorem ascii_url_tail_copied idna input ser se hs he :
+(* decidable corollary: from host_end on, the normalised URL is a suffix of the trimmed input *)
+Theorem rest_copied idna input ser se hs he :
   idna_contract idna ->
   scan_chars idna input = POk (ser, se, hs, he) -> (hs < he)%nat ->
-  F21_ignored_chars_in_host input = false ->
-  all_ascii (encode_all (trim_input input)) = true ->
-  is_suffixb (drop hs ser) (encode_all (trim_input input)) = true.
+  is_suffixb (drop he ser) (encode_all (trim_input input)) = true.
 Proof.
-  intros Hidna H Hlt HF Hasc.
-  destruct (scan_preserves_tail idna Hidna _ _ _ _ _ H Hlt HF) as (sp & hc & rc & h & [pre A] & B & C & D & _).
-  rewrite A in Hasc |- *. rewrite !encode_all_app in *. rewrite !all_ascii_app in Hasc.
-  apply andb_true_iff in Hasc as [_ Hasc]. apply andb_true_iff in Hasc as [Hh _].
-  destruct D as [(_ & ->)|(Dn & _)]; [|congruence].
-  apply slice_ok_eq in B as [B _].
-  assert (Hd : drop hs ser = encode_all hc ++ encode_all rc).
-  { rewrite <- (take_drop (he - hs) (drop hs ser)). rewrite <- B. f_equal.
-    unfold drop. rewrite skipn_skipn'. replace (he - hs + hs)%nat with he by lia. exact C. }
-  rewrite Hd. apply is_suffixb_complete. exists (encode_all pre). reflexivity.
+  intros Hidna H Hlt.
+  destruct (scan_preserves_tail idna Hidna _ _ _ _ _ H Hlt) as (sp & hc & rc & h & [pre A] & _ & C & _).
+  rewrite A, C, app_assoc, encode_all_app. apply is_suffixb_complete. exists (encode_all (pre ++ hc)). reflexivity.
 Qed.
 
-(* F21: "http://a<TAB>b.com/x" loses the last character of the host *)
-Lemma ascii_url_tail_copied_refuted_F21 :
-  exists input ser se hs he,
-    scan_chars (fun _ => None) input = POk (ser, se, hs, he) /\ (hs < he)%nat /\
-    F21_ignored_chars_in_host input = true /\
-    all_ascii (encode_all (trim_input input)) = true /\
-    is_suffixb (drop hs ser) (encode_all (trim_input input)) = false /\
-    slice ser hs he = Ok (bs "a" ++ [9] ++ bs "b.co").
-Proof.
-  exists (bs "http://a" ++ [9] ++ bs "b.com/x"). eexists. eexists. eexists. eexists.
-  split; [vm_compute; reflexivity|]. split; [vm_compute; lia|]. repeat split; vm_compute; reflexivity.
-Qed.
+(* former finding F21 (fixed in /repo 115106e): the tab is dropped, the whole host is kept *)
+Example F21_input_now_handled :
+  scan (fun _ => None) (bs "http://a" ++ [9] ++ bs "b.com/x") = Ok (POk (bs "http://ab.com/x", 4%nat, 7%nat, 13%nat)).
+Proof. vm_compute. reflexivity. Qed.
 
-(* F25: idna maps U+FF0F to '/', which ends up inside the reported hostname *)
 Definition psl_whole (h : str) : nat * nat := (O, length h).
 Lemma psl_whole_contract : psl_contract psl_whole.
 Proof. intros h a b H. inversion H; subst. repeat split; [lia|left; reflexivity]. Qed.
 
-Lemma hostname_no_delimiter_refuted_F25 :
-  exists idna u r input,
-    idna_contract idna /\
-    Request_new idna psl_whole (fun _ => 0) (fun _ => []) u [] [] = Ok (Some r) /\
-    decode_utf8 u = Some input /\ F21_ignored_chars_in_host input = false /\
-    existsb (host_forbidden false) (hostname r) = true /\ hostname r = bs "xn--/b-9ia.com".
-Proof.
-  exists (fun _ => Some (bs "xn--/b-9ia.com")), (hx "687474703a2f2fc3a9efbc8f622e636f6d2f78").
-  eexists. eexists. split; [intros h e H; inversion H; reflexivity|].
-  split; [vm_compute; reflexivity|]. split; [vm_compute; reflexivity|].
-  repeat split; vm_compute; reflexivity.
-Qed.
+(* former finding F25 (fixed in /repo 115106e): an idna answer with a '/' inside (what the real
+   idna returns for "é<U+FF0F>b.com") is rejected, the request is not built *)
+Example F25_input_now_rejected :
+  let idna := fun _ : str => Some (bs "xn--/b-9ia.com") in
+  let u := hx "687474703a2f2fc3a9efbc8f622e636f6d2f78" in
+  idna_contract idna /\ scan idna u = Ok (PErr IdnaError) /\
+  Request_new idna psl_whole (fun _ => 0) (fun _ => []) u [] [] = Ok None.
+Proof. split; [intros h e H; inversion H; reflexivity|]. split; vm_compute; reflexivity. Qed.
 
 (* ------------------------------------------------------------------ examples: the hypotheses are satisfiable *)
 Definition psl_example (h : str) : nat * nat :=
@@ -1053,8 +1073,6 @@ Proof.
 Qed.
 Lemma idna_none_contract : idna_contract (fun _ => None).
 Proof. intros h e H. discriminate. Qed.
-Lemma idna_none_no_delimiter : idna_no_delimiter (fun _ => None).
-Proof. intros h e H. discriminate. Qed.
 
 (* a first-party websocket request with userinfo, port and upper-case scheme *)
 Example request_new_example :
@@ -1063,7 +1081,6 @@ Example request_new_example :
                 (bs " WSS://user:pw@sub.example.com:8080/ad.js?x=1") (bs "https://www.example.com/") (bs "script")
     = Ok (Some r) /\
     decode_utf8 (bs " WSS://user:pw@sub.example.com:8080/ad.js?x=1") = Some input /\
-    F21_ignored_chars_in_host input = false /\
     url r = bs "wss://user:pw@sub.example.com:8080/ad.js?x=1" /\ hostname r = bs "sub.example.com" /\
     is_third_party r = false /\ is_supported r = true /\ request_type_of r = RT_Websocket /\
     all_ascii (encode_all (trim_input input)) = true.
